@@ -11,6 +11,7 @@ import (
 
 	"wtfverif/checker/internal/load"
 	"wtfverif/checker/internal/origin"
+	"wtfverif/checker/internal/slicefx"
 	"wtfverif/checker/internal/ssau"
 	"wtfverif/checker/internal/symx"
 )
@@ -222,7 +223,9 @@ func c19Boost(c *Ctx, sx *symx.Ctx) {
 	fk := "database.(*Database).applySemanticBoost"
 	f := sx.Of(fn)
 	cd := ssau.ControlDeps(fn)
-	pd := ssau.NewPostDom(fn)
+	var ordEng *slicefx.Engine
+	var ordCfg slicefx.OrderConfig
+	var retSorted map[*ssa.Return]bool
 	var writes []*ssa.Store
 	ssau.ForEachInstr(fn, false, func(in ssa.Instruction) {
 		st, ok := in.(*ssa.Store)
@@ -313,24 +316,25 @@ func c19Boost(c *Ctx, sx *symx.Ctx) {
 		}
 		_ = cd
 		r.Check(guard != "", "O-2", key, c.P.Pos(st.Pos()), fmt.Sprintf("Score *= 1 + %v*sim under %s: factor >= 1", alpha, guard), "the score update is not reachable only through the true side of sim >= (or >) a non-negative constant: a negative similarity — or a NaN, for which !(sim < min) holds too — would be multiplied into the score")
-		// every path from the write to a return passes a Score-descending sort
-		var sorts []*ssa.Call
-		ssau.ForEachInstr(fn, false, func(in ssa.Instruction) {
-			if call, ok := in.(*ssa.Call); ok && strings.HasPrefix(ssau.CallName(call), "sort.Slice") {
-				if mc, ok := call.Common().Args[1].(*ssa.MakeClosure); ok {
-					if cf, ok := mc.Fn.(*ssa.Function); ok && isScoreDescComparator(cf) {
-						sorts = append(sorts, call)
-					}
+		// every return the write can reach hands back a list that is sorted by
+		// descending score there (must-dataflow of the order engine: direct
+		// sorts, sorting helpers, sorted callee results)
+		if ordEng == nil {
+			ordEng, ordCfg = c01Engine(c)
+			retSorted = ordEng.ReturnsSorted(fn, ordCfg)
+		}
+		sorted := true
+		nRet := 0
+		for _, ret := range ssau.ReturnsOf(fn) {
+			if st.Block() == ret.Block() || ssau.Reachable(st.Block(), ret.Block(), nil) {
+				nRet++
+				if !retSorted[ret] {
+					sorted = false
 				}
 			}
-		})
-		sorted := false
-		for _, s := range sorts {
-			if pd.PostDominates(s.Block(), st.Block()) && s.Block() != st.Block() {
-				sorted = true
-			}
 		}
-		r.Check(sorted, "O-2", key+":resorted", c.P.Pos(st.Pos()), "a Score-descending sort post-dominates the write", "after raising a score some path returns without re-sorting by descending score: the result list is no longer ordered")
+		sorted = sorted && nRet > 0
+		r.Check(sorted, "O-2", key+":resorted", c.P.Pos(st.Pos()), "every return reachable from the write returns a list sorted by descending score", "after raising a score some path returns without re-sorting by descending score: the result list is no longer ordered")
 	}
 	// early returns are not reachable from a write
 	for _, ret := range ssau.ReturnsOf(fn) {
